@@ -5,14 +5,26 @@ Correspondence: real ompl::BinaryHeap (harness/heap.cpp, compiled from /repo/src
 (drv_heap) on the same operation scripts, line by line.
 Spec oracle (on the implementation's output only): abstract handle->key map, top is a minimum,
 position fields in sync, sort() sorted + permutation, final drain in non-decreasing order.
+
+Engine 2 "heapusers" (the heap's USERS named by the property's anchors: GridB's internal_/external_ heaps directly and
+through Discretization, EIT*'s ReverseQueue/ForwardQueue standalone, the BIT*/ABIT*/AIT*/EIT*/EIRM* queues inside planner
+runs): harness/heapusers.cpp drives each user through its public API and dumps the underlying BinaryHeap array (rank under
+the heap's own comparator + position field per slot, and what popping a copy yields) after every operation.  Oracle on the
+implementation's dumps: top has minimal rank, positions equal slots, size equals the user's live count, handles point at
+their own elements, popping the copy is non-decreasing; model tie: drv_heapaudit (heapOrdered / topIsMin / popAll of the
+model on the same rank vector) must agree.  This is trace conformance + oracle, not a proof about the users' code.
 """
+import concurrent.futures
 import itertools
+import json
 import os
+import re
 
 from lib import core
 
 DRIVER = "drv_heap"
-LEAN_TARGETS = ["OmplModel.Props.C11", DRIVER]
+HU_DRIVER = "drv_heapaudit"
+LEAN_TARGETS = ["OmplModel.Props.C11", DRIVER, HU_DRIVER]
 CMPS = ["less", "greater", "div4"]
 
 
@@ -419,6 +431,561 @@ def judge(ck, hbin, script, tag):
     return True
 
 
+# ================================================================================== engine 2: heapusers
+HU_USERS = ("gridb", "disc", "rq", "fq", "planner")
+HU_PLANNERS = ["BITstar", "ABITstar", "AITstar", "EITstar", "EIRMstar"]
+
+
+def hu_build(ck):
+    return ck.build_harness("heapusers", ["heapusers.cpp"], link_ompl=True)
+
+
+def hu_parse_heap(seg):
+    """`H name n=.. live=.. hk=.. swo=.. : r:p[:id] … ; drain=r,r,…`"""
+    head, _, rest = seg.partition(" :")
+    t = head.split()
+    d = {"name": t[1]}
+    for x in t[2:]:
+        k, _, v = x.partition("=")
+        d[k] = v
+    body, _, dr = rest.partition(" ; drain=")
+    slots = []
+    for tok in body.split():
+        parts = tok.split(":", 2)
+        slots.append((int(parts[0]), int(parts[1]), parts[2] if len(parts) > 2 else None))
+    d["slots"] = slots
+    dr = dr.strip()
+    d["drain"] = None if dr in ("-", "") else [int(x) for x in dr.split(",")]
+    d["n"] = int(d["n"])
+    return d
+
+
+def hu_parse_fq(seg):
+    """`F n=.. : id:lbbits:estbits:effort …`"""
+    head, _, rest = seg.partition(" :")
+    n = int(head.split()[1][2:])
+    rows = {}
+    for tok in rest.split():
+        i, lb, est, eff = tok.split(":")
+        rows[i] = (core.bits2f(lb), core.bits2f(est), int(eff))
+    return {"n": n, "rows": rows}
+
+
+def hu_parse_line(line):
+    parts = line.split(" | ")
+    heaps, fq = [], None
+    for seg in parts[1:]:
+        if seg.startswith("H "):
+            heaps.append(hu_parse_heap(seg))
+        elif seg.startswith("F "):
+            fq = hu_parse_fq(seg)
+    return parts[0], heaps, fq
+
+
+def hu_dump_oracle(d):
+    """the property's clauses on ONE dumped heap (implementation side only).  returns None | (class, text)."""
+    ranks = [r for r, _, _ in d["slots"]]
+    n = d["n"]
+    if n != len(ranks):
+        return ("size", "heap %s reports size %d but its array has %d slots" % (d["name"], n, len(ranks)))
+    if d.get("swo") == "0":
+        return ("comparator-not-swo", "the comparator of heap %s does not behave as a strict weak order on its current contents" % d["name"])
+    if n and ranks[0] != min(ranks):
+        j = ranks.index(min(ranks))
+        return ("top-not-min", "top of heap %s has rank %d but slot %d holds an element of rank %d that must come first"
+                % (d["name"], ranks[0], j, ranks[j]))
+    for i, (_, p, _) in enumerate(d["slots"]):
+        if p != i:
+            return ("position", "heap %s: the element in slot %d carries position %d" % (d["name"], i, p))
+    if d.get("live", "-") != "-" and int(d["live"]) != n:
+        return ("size-vs-live", "heap %s holds %d elements but its user counts %s live ones" % (d["name"], n, d["live"]))
+    if d.get("hk") == "0":
+        return ("handles", "heap %s: a handle kept by the user does not identify its own element" % d["name"])
+    if d["drain"] is not None:
+        dr = d["drain"]
+        if sorted(dr) != sorted(ranks):
+            return ("drain-not-permutation", "heap %s: popping everything does not yield exactly the contents" % d["name"])
+        for a in range(len(dr) - 1):
+            if dr[a + 1] < dr[a]:
+                return ("drain-unsorted", "heap %s: popping yields rank %d after rank %d" % (d["name"], dr[a + 1], dr[a]))
+    return None
+
+
+def hu_oracle(script, out):
+    """user-level spec on the implementation's output.  returns (None | (step, class, text, heapname), dumps) where dumps is
+    the list of (step, heapdict) in output order."""
+    user = script[0].split()[0]
+    dumps = []
+    ops = [l for l in script[1:] if not l.startswith("#")]
+    if len(out) < len(ops):
+        return (len(out), "crash", "implementation stopped early (crash or sanitizer report)", None), dumps
+    present = set()            # gridb: coordinates present
+    motions = {}               # disc: motion id -> coord
+    nextm = 0
+    live = set()               # rq / fq: live edges "s>t"
+    prev = None                # previous parsed heaps (by name)
+    prevfq = None
+    for i, ln in enumerate(ops):
+        o = out[i]
+        if o.startswith("bad-op") or o.startswith("exception"):
+            return (i, "bad-op", "the harness rejected a well-formed line: " + o[:80], None), dumps
+        res, heaps, fq = hu_parse_line(o)
+        t = ln.split()
+        op = t[0]
+        for d in heaps:
+            dumps.append((i, d))
+            f = hu_dump_oracle(d)
+            if f:
+                return (i, f[0], f[1], d["name"]), dumps
+        byname = {d["name"]: d for d in heaps}
+        if user == "gridb":
+            dim = int(script[0].split()[1].split("=")[1])
+            c = ",".join(t[1:1 + dim])
+            if op == "add" and res == "ok":
+                present.add(c)
+            elif op == "rm" and res == "ok":
+                present.discard(c)
+            elif op == "clear":
+                present = set()
+            ids = [x for d in heaps for _, _, x in d["slots"]]
+            if sorted(ids) != sorted(present):
+                return (i, "membership", "the two heaps together do not hold exactly the present cells", None), dumps
+            if op == "top" and (byname["int"]["n"] or byname["ext"]["n"]):
+                m = re.match(r"ti=(\S+) te=(\S+)", res)
+                for which, got in (("int", m.group(1)), ("ext", m.group(2))):
+                    d = byname[which] if byname[which]["n"] else byname["ext" if which == "int" else "int"]
+                    rk = {x: r for r, _, x in d["slots"]}
+                    if got not in rk or rk[got] != min(rk.values()):
+                        return (i, "top-not-min", "top%s() returned cell %s which is not a best cell of its heap" %
+                                ("Internal" if which == "int" else "External", got), d["name"]), dumps
+        elif user == "disc":
+            dim = int(script[0].split()[1].split("=")[1])
+            if op == "addm":
+                motions[nextm] = ",".join(t[1:1 + dim])
+                nextm += 1
+            elif op == "rmm" and res.startswith(("ok", "notfound")):
+                motions.pop(int(t[1]), None)
+            elif op == "clear":
+                motions = {}
+            cells = set(motions.values())
+            ids = [x for d in heaps for _, _, x in d["slots"]]
+            if sorted(ids) != sorted(cells):
+                return (i, "membership", "the two heaps together do not hold exactly the non-empty cells", None), dumps
+            m = re.search(r"size=(\d+) cells=(\d+)", res)
+            if int(m.group(1)) != len(motions) or int(m.group(2)) != len(cells):
+                return (i, "size-vs-live", "Discretization reports %s motions / %s cells, the script holds %d / %d" %
+                        (m.group(1), m.group(2), len(motions), len(cells)), None), dumps
+        elif user == "rq":
+            d = byname["rq"]
+            if op == "ins" and res == "ok":
+                live.add("%s>%s" % (t[1], t[2]))
+            elif op == "insv" and res == "ok":
+                xs = t[2:]
+                for a in range(0, len(xs), 2):
+                    live.add("%s>%s" % (xs[a], xs[a + 1]))
+            elif op == "rmv":
+                live = {e for e in live if e.split(">")[0] != t[1]}
+            elif op == "clear":
+                live = set()
+            elif op in ("pop", "peek") and res != "empty":
+                e = res.split()[0][2:]
+                src = prev["rq"] if op == "pop" else d
+                rk = {x: r for r, _, x in src["slots"]}
+                if e not in rk:
+                    return (i, "pop-not-member", "%s returned edge %s which was not in the queue" % (op, e), "rq"), dumps
+                if rk[e] != min(rk.values()):
+                    return (i, "top-not-min", "%s returned edge %s of rank %d although rank %d is queued" %
+                            (op, e, rk[e], min(rk.values())), "rq"), dumps
+                if op == "pop":
+                    live.discard(e)
+            ids = [x for _, _, x in d["slots"]]
+            if sorted(ids) != sorted(live):
+                return (i, "membership", "the queue does not hold exactly the edges inserted and not yet popped/removed "
+                        "(%d queued, %d live)" % (len(ids), len(live)), "rq"), dumps
+        elif user == "fq":
+            e2 = None
+            if op == "ins" and res == "ok":
+                live.add("%s>%s" % (t[1], t[2]))
+            elif op == "rm" and res == "ok":
+                live.discard("%s>%s" % (t[1], t[2]))
+            elif op == "clear":
+                live = set()
+            elif op in ("pop", "peek") and res != "empty":
+                e2 = res.split()[0][2:]
+                src = prevfq if op == "pop" else fq
+                if e2 not in src["rows"]:
+                    return (i, "pop-not-member", "%s returned edge %s which was not in the queue" % (op, e2), "fq"), dumps
+                if t[1] == "inf" and src["rows"][e2][2] != min(r[2] for r in src["rows"].values()):
+                    return (i, "top-not-min", "%s(inf) returned edge %s whose effort %d is not the least queued" %
+                            (op, e2, src["rows"][e2][2]), "fq"), dumps
+                if op == "pop":
+                    live.discard(e2)
+            if fq is None or fq["n"] != len(live) or sorted(fq["rows"]) != sorted(live):
+                return (i, "membership", "the forward queue does not hold exactly the live edges", "fq"), dumps
+        prev = byname
+        prevfq = fq
+    return None, dumps
+
+
+def hu_audit_lines(dumps):
+    return ["heapaudit"] + ["H %d %s" % (d["n"], " ".join("%d %d" % (r, p) for r, p, _ in d["slots"])) for _, d in dumps]
+
+
+def hu_parse_audit(line):
+    d = {}
+    for x in line.split():
+        k, _, v = x.partition("=")
+        d[k] = v
+    return d
+
+
+def hu_run(ck, hbin, script):
+    ops = [script[0]] + [l for l in script[1:] if not l.startswith("#")]
+    out, rc, err = ck.run_bin(hbin, ops, timeout=60 if script[0].startswith("planner") else 300)
+    if rc == "timeout" and script[0].startswith("planner"):
+        # a planner that does not come back from solve() is not a heap matter (C03/C15 territory): the run is dropped and counted
+        return [], "timeout", "", None, [], []
+    out = out or []
+    fail, dumps = hu_oracle(script, out)
+    model = []
+    if dumps:
+        model, rc2, err2 = ck.run_bin(ck.driver(HU_DRIVER), hu_audit_lines(dumps))
+        if rc2 != 0:
+            raise RuntimeError("model driver %s failed (rc=%s): %s" % (HU_DRIVER, rc2, (err2 or "")[-1000:]))
+    return out, rc, err, fail, dumps, model
+
+
+def hu_tie(dumps, model):
+    """model-side tie.  returns (disagreement | None, first latent disorder | None).
+    disagreement: (index into dumps, text); latent: (index into dumps, bad slots)."""
+    dis, latent = None, None
+    for k, (step, d) in enumerate(dumps):
+        if k >= len(model):
+            return (k, "the model printed no verdict"), latent
+        a = hu_parse_audit(model[k])
+        ranks = [r for r, _, _ in d["slots"]]
+        itop = "1" if (not ranks or ranks[0] == min(ranks)) else "0"
+        ipos = "1" if all(p == i for i, (_, p, _) in enumerate(d["slots"])) else "0"
+        if a.get("top") != itop and dis is None:
+            dis = (k, "top-is-min: implementation %s, model %s" % (itop, a.get("top")))
+        if a.get("pos") != ipos and dis is None:
+            dis = (k, "positions: implementation %s, model %s" % (ipos, a.get("pos")))
+        if d["drain"] is not None and dis is None:
+            mp = [] if a.get("pops") in ("-", None) else [int(x) for x in a["pops"].split(",")]
+            if mp != d["drain"]:
+                dis = (k, "pop order of heap %s: the implementation's copy pops %s, the model's pop loop %s" %
+                       (d["name"], d["drain"][:12], mp[:12]))
+        if a.get("ord") == "0" and latent is None:
+            latent = (k, [int(x) for x in a["bad"].split(",")] if a.get("bad", "-") != "-" else [])
+    return dis, latent
+
+
+def hu_search(ck, hbin, d, bad, tag):
+    """the dumped array is not heap-ordered but the property's clauses still hold on it: look for a continuation of
+    heap operations (remove some other elements, then pop everything) on which they fail, by replaying the rank array on
+    the REAL BinaryHeap code (`ranks` mode) and on the model (`X`).  returns (slots, real_line, model_line) | None."""
+    ranks = [r for r, _, _ in d["slots"]]
+    n = len(ranks)
+    keep = set()
+    for c in bad:
+        keep |= {c, (c - 1) // 2}
+    others = [i for i in range(n) if i not in keep]
+    r = ck.rng.fork("husearch" + tag)
+    tries = [[]]
+    # ancestors of the bad edges first (bring the too-large parent to the top), then random subsets
+    for c in bad:
+        anc, j = [], (c - 1) // 2
+        while j > 0:
+            j = (j - 1) // 2
+            anc.append(j)
+        tries.append(anc)
+    for _ in range(200):
+        sub = [i for i in others if r.chance(1, 2)]
+        r.shuffle(sub)
+        tries.append(sub)
+    lines = ["X %d %s | %d %s" % (n, " ".join(map(str, ranks)), len(sub), " ".join(map(str, sub))) for sub in tries]
+    real, rc, err = ck.run_bin(hbin, ["ranks"] + lines)
+    model, rc2, err2 = ck.run_bin(ck.driver(HU_DRIVER), ["heapaudit"] + lines)
+    ck.count("hu:search:continuations-tried", len(lines))
+    for sub, a, b in zip(tries, real or [], model or []):
+        if "top=0" in a or "sorted=0" in a:
+            return sub, a, b
+    return None
+
+
+def hu_judge(ck, hbin, script, tag, pre=None):
+    out, rc, err, fail, dumps, model = pre if pre is not None else hu_run(ck, hbin, script)
+    user = script[0].split()[0]
+    if rc == "timeout":
+        ck.count("hu:planner-runs-dropped-on-timeout")
+        ck.notes.append("planner run dropped (solve() did not return within 60 s): " + script[0])
+        return True
+    ck.traces_validated += 1
+    maxn = max([d["n"] for _, d in dumps] or [0])
+    ck.case(("hu",) + tuple(script), maxn >= 4)
+    ck.count("hu:scripts:" + user + ":" + tag)
+    ck.count("hu:ops", len(script) - 1)
+    ck.count("hu:dumps", len(dumps))
+    ck.count("hu:dumps-with-4+-elements", sum(1 for _, d in dumps if d["n"] >= 4))
+    ck.count("hu:dumps-with-ties", sum(1 for _, d in dumps if len(set(r for r, _, _ in d["slots"])) < d["n"]))
+    for ln in script[1:]:
+        if not ln.startswith("#"):
+            ck.count("hu:op:%s:%s" % (user, ln.split()[0]))
+    if len(ck.samples) < 12 and ck.dist["hu:sampled:" + user] < 1:
+        ck.count("hu:sampled:" + user)
+        ck.sample({"engine": "heapusers", "generator": tag, "script": script[:10] + (["…(%d more lines)" % (len(script) - 10)] if len(script) > 10 else [])}, limit=12)
+    if rc not in (0,) and fail is None:
+        fail = (len(out), "crash", "harness exited with code %s: %s" % (rc, (err or "")[-300:]), None)
+    dis, latent = (None, None) if fail is not None else hu_tie(dumps, model)
+    if fail is None and latent is not None:
+        k, bad = latent
+        step, d = dumps[k]
+        found = hu_search(ck, hbin, d, bad, "%d" % ck.traces_validated)
+        cut = [l for l in script[1:] if not l.startswith("#")][:step + 1]
+        if found:
+            sub, a, b = found
+            note = "#continuation heap=%s remove-slots=%s then pop all -> %s" % (d["name"], ",".join(map(str, sub)) or "-", a)
+            ck.report({"engine": "heapusers", "user": user, "heap": d["name"], "what": "latent-disorder-surfaces"},
+                      script=[script[0]] + cut + [note], expected=["model on the same array: " + b],
+                      observed=[out[step][:2000], "real BinaryHeap on the dumped array: " + a], engine="heapusers")
+            ck.log("heapusers: %s left heap %s mis-ordered at op %d; after removing slots %s the pops come out of order" % (user, d["name"], step, sub))
+        else:
+            ck.report({"engine": "heapusers", "user": user, "heap": d["name"], "what": "latent-disorder"},
+                      script=[script[0]] + cut, expected=["heapOrdered = true (every element not less than its parent)"],
+                      observed=[out[step][:2000], model[k]], found_input=False, engine="heapusers",
+                      obligation="user discipline: after op %d the array of heap %s (user %s) is not heap-ordered (slots %s below a larger "
+                                 "parent) although top and pop order of this very array are still right; no continuation found that makes them wrong"
+                                 % (step, d["name"], user, bad))
+        return False
+    if fail is not None:
+        cls = fail[1]
+
+        def still(lines):
+            sc = [script[0]] + lines
+            o, r_, e_ = ck.run_bin(hbin, sc, timeout=300)
+            f, _ = hu_oracle(sc, o or [])
+            if f is None:
+                return r_ != 0 and cls == "crash"
+            return f[1] == cls
+        body = [l for l in script[1:] if not l.startswith("#")]
+        small = [script[0]] + (core.ddmin(body, still, max_tests=300) if user != "planner" else body[:fail[0] + 1])
+        o, r_, e_ = ck.run_bin(hbin, small, timeout=300)
+        f, _ = hu_oracle(small, o or [])
+        if f is None:
+            small, o, f = script, out, fail
+        ck.report({"engine": "heapusers", "user": user, "heap": f[3], "what": f[1]}, script=small,
+                  expected=["top is a minimum of the current contents; positions = slots; size = live count; popping is non-decreasing"],
+                  observed=[x[:2000] for x in (o or [])[-3:]] + [f[2]] + ([("stderr: " + (e_ or "")[-400:])] if r_ != 0 else []),
+                  engine="heapusers")
+        ck.log("heapusers property failure (%s, op %d): %s (script of %d ops after shrinking)" % (user, f[0], f[2], len(small) - 1))
+        return False
+    if dis is not None:
+        ck.disagreements += 1
+        k, text = dis
+        step, d = dumps[k]
+        cut = [l for l in script[1:] if not l.startswith("#")][:step + 1]
+        ck.report({"engine": "heapusers", "user": user, "what": "model/implementation disagreement"}, script=[script[0]] + cut,
+                  expected=[model[k][:2000] if k < len(model) else "<missing>"], observed=[out[step][:2000]], found_input=False,
+                  engine="heapusers", obligation="correspondence heapusers: dump of heap %s vs OmplModel.Model.HeapAudit (%s)" % (d["name"], text))
+        ck.log("heapusers: model/implementation disagreement at op %d: %s" % (step, text))
+        return False
+    return True
+
+
+# ---------------------------------------------------------------------------------- heapusers generators
+def hu_gen_gridb(rng, nops, dense=False):
+    dim = rng.choice([1, 2, 2, 2, 3])
+    side = {1: rng.range(5, 9), 2: rng.range(3, 4), 3: rng.range(2, 3)}[dim]
+    limit = "default" if rng.chance(1, 3) else str(rng.range(1, 2 * dim))
+    if dense and limit == "default":
+        limit = str(rng.range(1, max(1, 2 * dim - 1)))
+    bounds = "none"
+    if rng.chance(1, 2):
+        bounds = ",".join(["0"] * dim) + ":" + ",".join([str(side - 1)] * dim)
+    lines = ["gridb dim=%d limit=%s bounds=%s" % (dim, limit, bounds)]
+    smax = rng.choice([4, 8, 8, 40])
+
+    def coord():
+        return " ".join(str(rng.below(side)) for _ in range(dim))
+
+    def data():
+        return "%d %d %d" % (rng.range(1, smax), rng.range(1, 2), rng.range(1, 3))
+    if dense:
+        cells = list(itertools.product(range(side), repeat=dim))
+        rng.shuffle(cells)
+        for c in cells:
+            lines.append("add %s %s" % (" ".join(map(str, c)), data()))
+    for _ in range(nops):
+        r = rng.below(100)
+        if r < (30 if dense else 42):
+            lines.append("add %s %s" % (coord(), data()))
+        elif r < (62 if dense else 66):
+            lines.append("rm " + coord())
+        elif r < 80:
+            lines.append("upd %s %s" % (coord(), data()))
+        elif r < 85:
+            lines.append("poke %s %s" % (coord(), data()))
+        elif r < 88:
+            lines.append("updall")
+        elif r < 94:
+            lines.append("orphan " + coord())
+        elif r < 99:
+            lines.append("top")
+        else:
+            lines.append("clear")
+    return lines
+
+
+def hu_gen_disc(rng, nops):
+    dim = rng.choice([1, 2, 2, 3])
+    side = {1: rng.range(4, 8), 2: rng.range(3, 4), 3: 2}[dim]
+    limit = "default" if rng.chance(1, 2) else str(rng.range(1, 2 * dim))
+    lines = ["disc dim=%d limit=%s" % (dim, limit)]
+    nm = 0
+    for _ in range(nops):
+        r = rng.below(100)
+        if r < 45:
+            lines.append("addm %s %d" % (" ".join(str(rng.below(side)) for _ in range(dim)), rng.below(4)))
+            nm += 1
+        elif r < 70 and nm:
+            lines.append("rmm %d" % rng.below(nm))
+        elif r < 92:
+            lines.append("sel %d %d" % (rng.below(1 << 20), rng.choice([0, 50, 80, 90, 100, 120, 150])))
+        elif r < 98:
+            lines.append("iter")
+        else:
+            lines.append("clear")
+    return lines
+
+
+def hu_gen_rq(rng, nops):
+    order = rng.choice(["cost", "effort", "effort"])
+    tied = rng.chance(1, 2)
+    ns, nt = rng.range(2, 4), rng.range(5, 10)
+    lines = ["rq order=" + order]
+    for _ in range(ns):     # st x ctg etg lbctc lbetc inadm
+        lines.append("st %d %d %d 0 0 0" % (0 if tied else rng.below(10), rng.below(5), 3 if tied else rng.below(6)))
+    for _ in range(nt):
+        lines.append("st %d 99 99 %d %d %d" % (20 if tied else 20 + rng.below(10), rng.below(6) if not tied else rng.below(2),
+                                                4 if tied else rng.below(6), 10 + rng.below(20)))
+    S = list(range(ns))
+    T = list(range(ns, ns + nt))
+    live = set()
+
+    def refresh(pairs):
+        for s_, t_ in pairs:
+            lines.append("ins %d %d" % (s_, t_))
+    for _ in range(nops):
+        r = rng.below(100)
+        if r < 30:
+            s_, t_ = rng.choice(S), rng.choice(T)
+            lines.append("ins %d %d" % (s_, t_))
+            live.add((s_, t_))
+        elif r < 35:
+            k = rng.range(0, 4)
+            ps = [(rng.choice(S), rng.choice(T)) for _ in range(k)]
+            lines.append(("insv %d %s" % (2 * k, " ".join("%d %d" % p_ for p_ in ps))).strip())
+            live |= set(ps)
+        elif r < 52:
+            t_ = rng.choice(T)
+            lines.append("set %d inadm %d" % (t_, 1 + rng.below(40)))
+            refresh([p_ for p_ in sorted(live) if p_[1] == t_])
+        elif r < 60:
+            t_ = rng.choice(T)
+            lines.append("set %d lbctc %d" % (t_, rng.below(6) if not tied else rng.below(2)))
+            if not tied:
+                lines.append("set %d lbetc %d" % (t_, rng.below(6)))
+            refresh([p_ for p_ in sorted(live) if p_[1] == t_])
+        elif r < 68:
+            s_ = rng.choice(S)
+            lines.append("set %d actg %d" % (s_, rng.below(5)))
+            if not tied:
+                lines.append("set %d eetg %d" % (s_, rng.below(6)))
+            refresh([p_ for p_ in sorted(live) if p_[0] == s_])
+        elif r < 72:        # a field changes and nobody tells the queue (stored keys are copies: must stay consistent)
+            lines.append("set %d %s %d" % (rng.choice(S + T), rng.choice(["inadm", "lbctc", "lbetc", "actg", "eetg", "cctc", "ectg"]), rng.below(8)))
+        elif r < 84:
+            lines.append("pop")
+        elif r < 87:
+            lines.append("peek")
+        elif r < 91:
+            s_ = rng.choice(S)
+            lines.append("rmv %d" % s_)
+            live = {p_ for p_ in live if p_[0] != s_}
+        elif r < 93:
+            lines.append("rebuild")
+        elif r < 95:
+            s_, t_ = rng.choice(S), rng.choice(T)
+            lines.append("wl %d %d" % (s_, t_))
+            if (s_, t_) in live:
+                refresh([(s_, t_)])
+        elif r < 97 and not tied:
+            s_, t_ = rng.choice(S), rng.choice(T)
+            lines.append("cc %d %d %d" % (s_, t_, rng.below(4)))
+            if (s_, t_) in live:
+                refresh([(s_, t_)])
+        elif r < 99:
+            lines.append("clear")
+            live = set()
+            if rng.chance(1, 2):
+                lines.append("order " + rng.choice(["cost", "effort"]))
+        else:
+            lines.append("order " + rng.choice(["cost", "effort"]))
+    lines += ["pop"] * 6
+    return lines
+
+
+def hu_gen_fq(rng, nops):
+    ns, nt = rng.range(2, 3), rng.range(4, 8)
+    lines = ["fq"]
+    for _ in range(ns):
+        lines.append("st %d %d %d %d 0 0" % (rng.below(10), rng.below(5), rng.below(6), rng.below(6)))
+    for _ in range(nt):
+        lines.append("st %d %d %d %d %d %d" % (20 + rng.below(10), rng.below(9), rng.below(9), rng.below(6), rng.below(6), rng.below(20)))
+    S = list(range(ns))
+    T = list(range(ns, ns + nt))
+    for _ in range(nops):
+        r = rng.below(100)
+        s_, t_ = rng.choice(S), rng.choice(T)
+        if r < 40:
+            lines.append("ins %d %d" % (s_, t_))
+        elif r < 55:
+            lines.append("set %d %s %d" % (rng.choice(S + T), rng.choice(["cctc", "ectg", "actg", "eetg"]), rng.below(9)))
+            lines.append("upd %d %d" % (s_, t_))
+        elif r < 65:
+            lines.append("rm %d %d" % (s_, t_))
+        elif r < 85:
+            lines.append("pop " + rng.choice(["inf", "inf", "1", "2"]))
+        elif r < 93:
+            lines.append("peek " + rng.choice(["inf", "1"]))
+        elif r < 97:
+            lines.append("rebuild")
+        else:
+            lines.append("clear")
+    return lines
+
+
+def hu_gen_planner(rng, steps, name=None):
+    name = name or rng.choice(HU_PLANNERS)
+    boxes = []
+    for _ in range(rng.below(3)):
+        x0, y0 = rng.range(20, 60), rng.range(0, 60)
+        boxes.append((x0, y0, x0 + rng.range(5, 25), y0 + rng.range(10, 40)))
+
+    def free():
+        while True:
+            x, y = rng.range(5, 95), rng.range(5, 95)
+            if not any(b[0] <= x <= b[2] and b[1] <= y <= b[3] for b in boxes):
+                return x, y
+    s_, g_ = free(), free()
+    lines = ["planner name=%s seed=%d lo=0 hi=10 start=%d,%d goal=%d,%d batch=%d boxes=%s" %
+             (name, rng.range(1, 1 << 20), s_[0], s_[1], g_[0], g_[1], rng.choice([6, 10, 15, 25]),
+              ",".join(",".join(map(str, b)) for b in boxes) or "none")]
+    for _ in range(steps):
+        lines.append("solve %d" % rng.choice([1, 1, 2, 2, 3, 5, 8]))
+    return lines
+
+
 def corpus():
     d = os.path.join(core.VERIF, "corpus", "C11")
     out = []
@@ -431,6 +998,7 @@ def corpus():
 
 def setup(ck):
     ck.build_harness("heap", ["heap.cpp"])
+    hu_build(ck)
 
 
 def run(ck):
@@ -441,13 +1009,38 @@ def run(ck):
                    "model abstractions: swap-based sifting instead of hole-moving, handle lookup instead of the position field"]
     ck.assumptions += ["the comparison functor is a strict weak order (C++'s own requirement)",
                        "pop()/top() on an empty heap and use of a dead handle are outside the API contract and not exercised on the real code"]
+    ck.rule += ("; engine 2 (heapusers): scripts of public-API operations on the heap's users - GridB<CellData*,..> with a "
+                "neighbour-count-dependent importance callback (dims 1-3, default and lowered interior limits, bounds set/unset, "
+                "add/rm/upd/poke+updall/orphan create-remove/clear), Discretization<Motion> (addMotion/removeMotion/selectMotion+"
+                "updateCell), eitstar::ReverseQueue (cost/effort ordered, tied keys, in-place changes of every key component through "
+                "the State fields then insertOrUpdate, pop/peek/removeOutgoingEdges/rebuild/clear/setCostQueueOrder), "
+                "eitstar::ForwardQueue, and BIT*/ABIT*/AIT*/EIT*/EIRM* planner runs stopped every few polls of the termination "
+                "condition; every heap is dumped after every operation; a script is non-trivial if some dumped heap held >= 4 elements")
+    ck.trusted += ["harness/heapusers.cpp opens `private`/`protected` of BinaryHeap.h, GridB.h, Discretization.h and the BIT*/AIT*/EIT* "
+                   "headers for its own translation unit to read the heaps' vector_/position/lt_ and the users' handle lookups; all "
+                   "operations on the users go through their public API",
+                   "ranks: the harness computes each element's rank by a stable sort of a copy of the contents with the heap's comparator "
+                   "and reports whether lt(a,b) <-> rank a < rank b held (all pairs up to 160 elements, 30000 sampled pairs above); "
+                   "audit_rank_invariant proves that judging ranks is judging the dump when it does",
+                   "pop order of a user's heap is taken from a second BinaryHeap instance (same template, user's comparator on the user's "
+                   "data) with the dumped array order injected, not from the user's own heap",
+                   "AIT*'s vertex queue is judged under the lexicographic order of its stored 2-key (its functor breaks key ties by live "
+                   "vertex state and is not a strict weak order)"]
+    ck.assumptions += ["the heap's users are NOT modelled: their discipline (key change => update(handle)/rebuild, with the final key) is "
+                       "observed on the explored scripts and planner runs only (trace conformance + oracle), not proved",
+                       "BIT*/AIT*/EIT* queues are observed only at returns of solve() (every 1-8 polls of the termination condition), "
+                       "not inside an iteration"]
     ck.lean_build(LEAN_TARGETS)
-    ck.audit(roots=["Drv.Heap"])
+    ck.audit(roots=["Drv.Heap", "Drv.HeapAudit"])
     if ck.tier == "thorough" and ck.lean_ok:
         ck.leanchecker(["OmplModel.Props.C11"])
     hbin = ck.build_harness("heap", ["heap.cpp"])
+    ubin = hu_build(ck)
     bad = 0
-    for name, script in corpus():
+    allcorpus = corpus()
+    for name, script in allcorpus:
+        if script[0].split()[0] in HU_USERS:
+            continue
         if not judge(ck, hbin, script, "corpus"):
             bad += 1
     nrand, ndir = (250, 250) if ck.tier == "quick" else (1500, 1500)
@@ -471,10 +1064,79 @@ def run(ck):
                     bad += 1
                     break
         ck.extra_cov["exhaustive_sequences"] = n
+    # ---- engine 2: the heap's users
+    quick = ck.tier == "quick"
+    ujobs = [(script, "corpus") for name, script in allcorpus if script[0].split()[0] in HU_USERS]
+    ng, ngd, nd, nq, nf, npl = (110, 50, 60, 150, 40, 60) if quick else (1600, 700, 800, 2200, 500, 700)
+    for i in range(ng):
+        r = ck.rng.fork("hug%d" % i)
+        ujobs.append((hu_gen_gridb(r, r.choice([20, 50, 120])), "random"))
+    for i in range(ngd):
+        r = ck.rng.fork("hugd%d" % i)
+        ujobs.append((hu_gen_gridb(r, r.choice([15, 40, 80]), dense=True), "dense"))
+    for i in range(nd):
+        r = ck.rng.fork("hud%d" % i)
+        ujobs.append((hu_gen_disc(r, r.choice([20, 60, 150])), "random"))
+    for i in range(nq):
+        r = ck.rng.fork("huq%d" % i)
+        ujobs.append((hu_gen_rq(r, r.choice([20, 60, 160])), "random"))
+    for i in range(nf):
+        r = ck.rng.fork("huf%d" % i)
+        ujobs.append((hu_gen_fq(r, r.choice([20, 60])), "random"))
+    for i in range(npl):
+        r = ck.rng.fork("hup%d" % i)
+        ujobs.append((hu_gen_planner(r, r.choice([15, 30, 60]) if quick else r.choice([30, 80, 160]), HU_PLANNERS[i % len(HU_PLANNERS)]), "planner-run"))
+    ubad = 0
+    with concurrent.futures.ThreadPoolExecutor(max_workers=min(16, (os.cpu_count() or 4))) as ex:
+        chunk = 64
+        for a in range(0, len(ujobs), chunk):
+            if ubad >= 3:
+                break
+            part = ujobs[a:a + chunk]
+            pres = list(ex.map(lambda j: hu_run(ck, ubin, j[0]), part))
+            for (script, tag), pre in zip(part, pres):
+                if ubad >= 3:
+                    break
+                if not hu_judge(ck, ubin, script, tag, pre):
+                    ubad += 1
     return 0
 
 
 def replay(ck, data):
+    if data.get("engine") == "heapusers" or (data.get("script") and data["script"][0].split()[0] in HU_USERS):
+        ubin = hu_build(ck)
+        ck.lean_build([HU_DRIVER])
+        script = data["script"]
+        out, rc, err, fail, dumps, model = hu_run(ck, ubin, script)
+        ops = [l for l in script[1:] if not l.startswith("#")]
+        k = 0
+        for i, ln in enumerate(ops):
+            print("%-34s impl:  %s" % (ln, (out[i] if i < len(out) else "<missing>")[:600]))
+            while k < len(dumps) and dumps[k][0] == i:
+                if k < len(model):
+                    print("%-34s model: %s %s" % ("", dumps[k][1]["name"], model[k][:300]))
+                k += 1
+        if rc != 0:
+            print("harness exit code %s: %s" % (rc, (err or "")[-600:]))
+        if fail:
+            print("PROPERTY FAILS at op %d (%s): %s" % (fail[0], fail[1], fail[2]))
+            return 1
+        dis, latent = hu_tie(dumps, model)
+        if latent is not None:
+            kk, bad = latent
+            step, d = dumps[kk]
+            found = hu_search(ck, ubin, d, bad, "replay")
+            print("after op %d the array of heap %s is NOT heap-ordered (slots %s sit below a larger parent)" % (step, d["name"], bad))
+            if found:
+                print("PROPERTY FAILS after a continuation: remove slots %s, then pop all: real heap %s | model %s" % found)
+            else:
+                print("no continuation found on which top / pop order go wrong")
+            return 1
+        if dis is not None or rc != 0:
+            print("model and implementation disagree: %s" % (dis,))
+            return 1
+        print("no failure on the current tree")
+        return 0
     hbin = ck.build_harness("heap", ["heap.cpp"])
     ck.lean_build([DRIVER])
     script = data["script"]
